@@ -351,6 +351,8 @@ def write (blocks : List Bytes) (idx : Nat) : S σ Unit := do
     writeBlocks B blocks
     waitNotBusy B DEFAULT_WRITE_RETRIES
     writeByte B (UInt8.ofNat STOP_TRAN_TOKEN)
+    -- the card programs the last block: waited for here, with the write budget
+    waitNotBusy B DEFAULT_WRITE_RETRIES
 
 /-- `read_csd`: the register and which layout it uses (`true` = version 2). -/
 def readCsd : S σ (Bytes × Bool) := do
